@@ -10,6 +10,7 @@ from . import rules_pchk as K
 from . import rules_own as O
 from . import rules_kernels as KN
 from . import rules_flow as F
+from . import rules_sib as SB
 
 PROPS = {}
 MAIN3 = [1, 2, 3]        # RS-2^8, RS-2^m, LDPC-Staircase
@@ -53,6 +54,7 @@ def c01(ctx):
         K.r_nullfeed(ctx, prog)
         D.r_it_step3(ctx, prog)
         F.r_ro_flow(ctx, prog, MAIN3)
+        SB.r_siblings(ctx, prog, ['rs-algebra', 'rs-api'])
         KN.r_kernel_shape(ctx, prog)
         KN.r_kea(ctx, prog, list(range(0, 2 * KN.P + 9)), [0, 1, 2, 3, 4, 5, 7, 8, 9, 12, 13, 16, 20])
     return dict(
@@ -77,6 +79,7 @@ def c02(ctx):
         T.r_tables(ctx, prog)
         T.r_poly(ctx, prog)
         PA.r_param(ctx, prog, codecs=(1, 2), only=['k>=1', 'k<=MAX_K', 'n<=MAX_N'])
+        SB.r_siblings(ctx, prog, ['rs-algebra', 'rs-api'])
     return dict(
         explanation='R-PARAM (k and n clauses): an accepted (k, n) has 1 <= k <= MAX_K and n <= MAX_N = 2^m-1, the range in which the '
         'evaluation points are pairwise distinct. R-RS-THRESHOLD: both RS finish_decoding routines run the matrix decoder only with >= k symbols, return FAILURE and '
@@ -121,6 +124,7 @@ def c10(ctx):
         D.r_complete(ctx, prog, MAIN3)
         D.r_count(ctx, prog, MAIN3)
         D.r_rs_threshold(ctx, prog, RS)
+        SB.r_siblings(ctx, prog, ['rs-api'])
         CB.r_srcptr(ctx, prog, MAIN3)
         CB.r_srcstore(ctx, prog, MAIN3)
     return dict(
@@ -214,6 +218,7 @@ def c09(ctx):
     extra = {}
     for prog in programs(ctx):
         extra['ok_path_guards_' + prog.config] = PA.r_param(ctx, prog)
+        PA.r_accept(ctx, prog)
         P.r_seedrange(ctx, prog)     # every seed the LDPC codec accepts must be one the PRNG really takes
         I.r_apiguard(ctx, prog)
         I.r_retdef(ctx, prog)
@@ -430,6 +435,7 @@ def c06(ctx):
         F.r_ro_flow(ctx, prog, MAIN3)
         F.r_nullslot(ctx, prog, MAIN3)
         F.r_enc_loop(ctx, prog, MAIN3)
+        SB.r_siblings(ctx, prog, ['rs-algebra'])
         I.r_apiguard(ctx, prog, which=['of_build_repair_symbol', 'of_rs_build_repair_symbol', 'of_rs_2_m_build_repair_symbol',
                                       'of_ldpc_staircase_build_repair_symbol'])
         I.r_dispatch(ctx, prog, MAIN3, ['of_build_repair_symbol', 'of_set_fec_parameters'])
@@ -489,6 +495,7 @@ def c16(ctx):
         F.r_enc_loop(ctx, prog, [5])
         F.r_ro_flow(ctx, prog, [5])
         F.r_2d_radix(ctx, prog)
+        SB.r_siblings(ctx, prog, ['lb-api'])
         O.r_own_field(ctx, prog, [5], helpers=False)
         O.r_own_elem(ctx, prog, [5])
     return dict(
